@@ -1014,25 +1014,40 @@ RULE = ('per solver (admm_linearized[_simple], adupdates[_simple], doubleprox_dc
         'the prox / conjugate-prox / gradient formulas of the functional family against the library.')
 ASSUMPTIONS = ['exact arithmetic: the model iterates are the unrounded ones; implementation compared with tolerance '
                '1e-9*(1+max|x|) ("up to rounding" in the property text)',
-               'each op(x, out=y), prox(x, out=y), y.lincomb(...), y += z is modelled by its pure value: the '
-               'out-aliasing contract (prox(x, out=x)) is C10\'s subject, the call protocol C03\'s, lincomb C01\'s',
-               'operators/proximals/gradients are deterministic functions of their argument (no hidden state)',
-               'random-order variants (kaczmarz/adupdates random=True) and accelerated pdhg (gamma_primal/gamma_dual) '
-               'are outside the resumption claim and not modelled']
-TRUSTED = ['C11/Model.v: hand transcription of the loop bodies, one let per source statement (tied to the source by '
-           'the correspondence on every run)',
+               'each op(x, out=y), prox(x, out=y), y.lincomb(...), y += z is modelled by its pure value, evaluated '
+               'completely before y is overwritten: the out-aliasing contract (prox(x, out=x)) is C10\'s subject, '
+               'the call protocol C03\'s, lincomb C01\'s',
+               'operators/proximals/gradients/projections are deterministic functions of their argument (no hidden '
+               'state); step sizes are the same in both calls of a split run (default omega/tau/sigma are NOT: '
+               'recorded finding)',
+               'translator configuration: callback given, constant step sizes (gamma_primal = gamma_dual = None), '
+               'fixed order (random=False), scalar inner step sizes in the regenerated adupdates programs (the '
+               'hand model and its theorem also cover array-valued ones)',
+               'random-order variants (kaczmarz/adupdates random=True), accelerated pdhg, steepest descent with a '
+               'line-search object, accelerated_proximal_gradient are outside the resumption claim and not modelled']
+TRUSTED = ['translate/solvers.py (Python ast -> C11/Syntax.v programs, fail closed; preambles of the list solvers '
+           'pinned by hash)',
+           'C11/Interp.v: semantics of names bound to mutable vector objects (Bind/Alias/Write), canonicalisation',
+           'C11/Model.v sweeps over lists of operators (ad_sweep_opt, kz_sweep, em_sweep) and steepest descent: hand '
+           'transcription tied to the source by the correspondence on every run',
            'C11/Corr.v functional family (prox / conjugate prox / gradient formulas), itself checked against the '
            'library by the fk case set']
-LEVEL_TEXT = ('Proof: for loop-body models of admm_linearized, adupdates, doubleprox_dc and their _simple references, '
-              'with operators, proximals and gradients as arbitrary functions, Coq proves for EVERY iteration count, '
-              'start point, number of operators and temporary-sharing pattern that the callback-observed iterate '
-              'sequences coincide (loop invariant tmp_ran = L x for ADMM); that n then m iterations equal n+m '
-              'iterations for landweber, kaczmarz (fixed order), mlem/osmlem, steepest descent with constant step '
-              '(including its early return), doubleprox_dc, proximal_gradient with constant or caller-shifted lam, '
-              'and pdhg on the state (x, x_relax, y); that the callback trace has one entry per (sub-)iteration and '
-              'its k-th entry is the k-th iterate.  The literal resumption statement is refuted for '
-              'proximal_gradient with a callable lam (recorded finding).  The models are tied to the code by an '
-              'in-Coq correspondence on iterates and on all splittings.')
-LEVEL_NOTE = ('Trusted: hand-written loop-body models (validated by the correspondence), value-level semantics of '
-              'in-place calls (C01/C03/C10), exact arithmetic.  Axioms: classical reals + funext as printed.')
-TECHNIQUE = 'Coq proof by induction on niter with loop invariants (simulation) + in-Coq differential correspondence on iterates'
+LEVEL_TEXT = ('Proof: the preamble and loop body of admm_linearized, admm_linearized_simple, doubleprox_dc, '
+              'doubleprox_dc_simple, pdhg, landweber, proximal_gradient and the per-operator inner loops of '
+              'adupdates, adupdates_simple, kaczmarz, osmlem are REGENERATED from the source on every run as programs '
+              'over names bound to mutable vector objects; Coq proves by symbolic execution that they compute the '
+              'loop-body models for every interpretation of the operators, and then, for EVERY iteration count, start '
+              'point, number of operators and temporary-sharing pattern: optimised and reference implementations '
+              'produce the same callback-observed iterates and the same caller-visible results (ADMM invariant '
+              'tmp_ran = L x); n then m iterations equal n+m iterations for landweber, kaczmarz (fixed order), '
+              'mlem/osmlem, steepest descent with constant step (early return included), doubleprox_dc, '
+              'proximal_gradient with constant or caller-shifted lam, and pdhg through the caller\'s x, x_relax, y '
+              'objects; the callback log has one entry per (sub-)iteration and its k-th entry is the k-th iterate. '
+              'Refuted (recorded findings): resumption of proximal_gradient with a callable lam; resumption with '
+              'default step sizes (operator-norm estimate never cached).  An in-Coq correspondence on iterates and '
+              'on all splittings ties the hand-written parts to the code.')
+LEVEL_NOTE = ('Trusted: the translator (fail-closed, small grammar), the interpreter semantics (value-level in-place '
+              'calls: C01/C03/C10), the hand-written sweeps over operator lists (validated by the correspondence), '
+              'exact arithmetic.  Axioms: classical reals + funext as printed.')
+TECHNIQUE = ('source-regenerated heap-level programs + symbolic execution in Coq, induction on niter with loop '
+             'invariants (simulation), in-Coq differential correspondence on iterates and all splittings')
